@@ -23,7 +23,15 @@ META = {
             'user\'s build; a group that is entered in one and skipped in the other must be on the list of known switches '
             '(KNOWN_CONDITIONALS, a reason per entry); an extracted Gallina model of conditional groups / define / include / pragma once '
             'predicts the groups g++ enters, in order, for every translation unit, and C20_branches_confined_to_known_groups proves for '
-            'every tree that the decision the check evaluates implies that both builds see the same text outside the known groups.',
+            'every tree that the decision the check evaluates implies that both builds see the same text outside the known groups. '
+            'Independently of generator and model the COMPILED text is compared (checks/c20_decl.py): g++ -E of {src/qtlogger/qtlogger.h + every library .cpp} and of '
+            '{qtlogger.h} under the same -D flags, own text only (line markers), cut into namespace-scope declarations, compared as multisets - a body the generator '
+            'pasted into a comment shows up as declarations the header lacks (a probe program "using QtLogger::<name>;" is compiled both ways); the Gallina side of that: '
+            'a comment lexer, the decidable predicate includes_outside_comments (evaluated by the extracted driver on the tree) and C20_bodies_start_in_code. '
+            'And, because the library is a static archive while the header is one translation unit, every start-up function (.init_array) of every library object is '
+            'disassembled (checks/c20_init.py): one that refers to anything beyond the C++ runtime bookkeeping runs in every header-only program but only in the library '
+            'programs that happen to link the object; it must be on a reasoned known list, otherwise the same program is linked against the archive / all objects / '
+            'header-only and the difference is shown (nm, gdb).',
     'note': 'Trusted: Coq 8.16.1 kernel, no axioms; extraction (ExtrOcamlBasic) + ocaml/drv_amalgam.ml (loads src/ into the '
             'abstract tree); python3 running tools/gen_qtlogger.h.py on a scratch copy; checks/c20.py (byte comparison, diff). '
             'The model is hand-written from the generator (regexes, os.path.join/abspath/exists, glob, sorted): its tie to the '
@@ -70,12 +78,12 @@ def run_model(model, top):
         rc, so, se = vlib.sh([model, top, tmp], timeout=300, env={'OCAMLRUNPARAM': 's=4M'})
         if rc != 0:
             return None, {}, (se or so)[-800:]
-        info = {'source': [], 'emitted': [], 'included': []}
+        info = {'source': [], 'emitted': [], 'included': [], 'include_in_comment': []}
         for ln in so.splitlines():
             k, _, v = ln.partition(' ')
             if k in info:
                 info[k].append(bytes.fromhex(v).decode('utf-8', 'replace'))
-            elif k in ('files', 'bytes', 'starved', 'directives', 'unresolved'):
+            elif k in ('files', 'bytes', 'starved', 'directives', 'unresolved', 'comments_ok'):
                 info[k] = int(v)
         return open(tmp, 'rb').read(), info, ''
     finally:
@@ -1285,7 +1293,8 @@ def edit_tree(top, rng, n):
             insert(tgt, rng.choice(['#  include "logger.h"', '#\tinclude "sink.h"', '#include "nonexistent_%d.h"' % e, '#include "sinks"',
                                     '#include  "logger.h"', '#include "', '#include ""', '#\ninclude "handler.h"', 'x = "#include"; // "q"',
                                     '#include "../../../../x.h"', '#include "formatters/../sink.h"', '# include <QString>',
-                                    '#include "a\nb.h"', '#include "qtlogger.h"']))
+                                    '#include "a\nb.h"', '#include "qtlogger.h"',
+                                    '/* #include "logger.h" */', '// see #include "sink.h"', '/*\n * #include "handler.h"\n */', 'const char *inc = "#include \\"filter.h\\"";']))
         elif kind == 'blank':
             insert(tgt, '\n' * rng.randint(1, 5))
         elif kind == 'newcpp':
@@ -1380,6 +1389,17 @@ def run():
         chk.cov['hypothesis_of_C20_included_once'] = {'no_root_source_in_include_set': not roots_included, 'emitted_bodies_distinct': not dup_emitted,
                                                       'directives_met': info.get('directives'), 'kept_verbatim_unresolved': info.get('unresolved'),
                                                       'fuel_ran_out': bool(info.get('starved'))}
+        # hypothesis of C20_bodies_start_in_code / C20_file_expansion_is_comment_neutral, decided by the extracted model on this tree
+        if mod is not None:
+            chk.cov['hypothesis_of_C20_bodies_start_in_code'] = {'includes_outside_comments': bool(info.get('comments_ok')),
+                                                                 'files_breaking_it': info.get('include_in_comment', [])[:10]}
+            if not info.get('comments_ok'):
+                bad = info.get('include_in_comment', [])
+                chk.broke('includes_outside_comments is false of the current tree (the hypothesis of C20_bodies_start_in_code): %s an include directive (as the '
+                          'generator\'s regex sees it) inside a comment or literal, or ends inside a block comment - the generator pastes the named file INTO the comment '
+                          'and its once-only rule drops the real directive' % ((', '.join(bad[:4]) + ' has') if bad else 'a generated block name would open a comment, or a file has'),
+                          {'kind': 'include-directive-inside-comment', 'files': bad[:20],
+                           'how': 'build/m_amalgam /repo /tmp/out.h | grep -E "comments_ok|include_in_comment"   (paths hex encoded); AmalgamCommentDefs.includes_outside_comments'})
         if info.get('starved'):
             chk.broke('the extracted model reports that its nesting fuel ran out although C20_fuel_sufficient excludes it', {'kind': 'model-starved'})
         samples.append({'tree': 'current /repo working tree', 'files_loaded': info.get('files'), 'root_sources': len(info.get('source', [])),
